@@ -22,6 +22,15 @@ pub fn payload_of(kind: u8, seed: u64) -> Vec<u8> {
         0 => vec![],
         1 => vec![0x03],
         2 => vec![1, 1, 0, 0, 0, 0, 0, 0, 3],
+        4 => {
+            // 1 MiB + 64 KiB + 1: anything that caps, buffers or counts the stream at a "round" size shows here
+            let mut v = payload_big(seed);
+            while v.len() < (1 << 20) + (64 << 10) + 1 {
+                let l = v.len();
+                v.extend_from_within(..l.min((1 << 20) + (64 << 10) + 1 - l));
+            }
+            v
+        }
         _ => payload_big(seed),
     }
 }
@@ -156,6 +165,43 @@ pub fn produce(tier: Tier, emit: &mut dyn FnMut(Case)) {
                 kind: "atom",
                 msg: m,
                 payload_kind: (i % 3) as u8,
+            });
+        }
+    }
+    // (B') attributes named like the mandatory / target operation attributes (the encoder treats these five
+    // names specially): every subset of them x placement {first operation group, a later operation group,
+    // a job group}
+    let special: [(&str, Val); 5] = [
+        ("attributes-charset", Val::Str(T_CHARSET, b"utf-8".to_vec())),
+        ("attributes-natural-language", Val::Str(T_NATLANG, b"en".to_vec())),
+        ("printer-uri", Val::Str(T_URI, b"ipp://h/p".to_vec())),
+        ("job-uri", Val::Str(T_URI, b"ipp://h/j/1".to_vec())),
+        ("job-id", Val::Int(7)),
+    ];
+    for mask in 1u32..32 {
+        let picked: Vec<Attr> = special.iter().enumerate().filter(|(i, _)| mask & (1 << i) != 0).map(|(_, (n, v))| attr(n, vec![v.clone()])).collect();
+        // at most 4 unordered attributes per group keeps complete order coverage possible
+        if picked.len() > 4 {
+            continue;
+        }
+        for placement in 0..3 {
+            let mut m = Msg::new(0x0101, 0x0002, 5);
+            match placement {
+                0 => m.groups.push(Group { tag: TAG_OPERATION, attrs: picked.clone() }),
+                1 => {
+                    m.groups.push(Group { tag: TAG_OPERATION, attrs: vec![attr("x", vec![Val::Int(1)])] });
+                    m.groups.push(Group { tag: TAG_JOB, attrs: vec![attr("y", vec![Val::Int(2)])] });
+                    m.groups.push(Group { tag: TAG_OPERATION, attrs: picked.clone() });
+                }
+                _ => {
+                    m.groups.push(Group { tag: TAG_OPERATION, attrs: vec![attr("x", vec![Val::Int(1)])] });
+                    m.groups.push(Group { tag: TAG_JOB, attrs: picked.clone() });
+                }
+            }
+            emit(Case {
+                kind: "special-names",
+                msg: m,
+                payload_kind: 0,
             });
         }
     }
